@@ -277,6 +277,7 @@ def judge(case, impl, model, spec, ctx):
         mt = model.split()
         mend = untok(mt[0])[0]
         mbody = bytes(untok(mt[1])) if len(mt) > 1 else b""
-        if mbody != body or (mend == 2 and code == 0):
+        # (through the real endpoint the client sees the stream end; how the exchange ended inside the endpoint is the door's business)
+        if mbody != body or (mend == 2 and code == 0 and not case.kind.startswith("endpoint:")):
             out.append(("disagree", "%s: body/end differ from the body-state model: impl %d bytes result %d, model %d bytes end %d" % (what, len(body), code, len(mbody), mend)))
     return out[:1]
